@@ -22,6 +22,11 @@ static SLOT_TAKEN: [std::sync::atomic::AtomicBool; NSLOTS] = [const { std::sync:
 struct SlotGuard(Option<usize>);
 impl Drop for SlotGuard {
     fn drop(&mut self) {
+        if std::thread::panicking() {
+            // a panic is unwinding this worker: the process is about to die; leave the case
+            // published (and the slot taken) so that the supervisor can attribute the failure
+            return;
+        }
         if let Some(i) = self.0 {
             let base = BASE.load(Ordering::Relaxed);
             if base != 0 {
@@ -79,6 +84,28 @@ fn map_file(path: &str, create: bool) -> *mut u8 {
 }
 
 /// Called in the child: attach to the progress file given by the supervisor (if any).
+static CURRENT_PROP: std::sync::OnceLock<String> = std::sync::OnceLock::new();
+pub fn set_current_prop(id: &str) {
+    let _ = CURRENT_PROP.set(id.to_string());
+}
+pub fn current_prop() -> String {
+    CURRENT_PROP.get().cloned().unwrap_or_default()
+}
+
+/// A plain preparatory history (create a core, append, clear, reopen) failed on this tree: the
+/// checks cannot even set up their subject. Publish it as a case and die without unwinding so
+/// that the supervisor attributes the failure to it (a verdict, not a machinery failure).
+pub fn setup_failed(hist_json: serde_json::Value, msg: &str) -> ! {
+    let case = serde_json::json!({"prop": current_prop(), "what": "writer-setup", "hist": hist_json});
+    set_case(&case.to_string());
+    eprintln!("harness: a plain set-up history fails on this tree: {msg}");
+    if std::env::var("HCVERIF_CHILD").is_ok() {
+        std::process::abort()
+    } else {
+        panic!("{msg}")
+    }
+}
+
 pub fn child_init() {
     if let Ok(p) = std::env::var("HCVERIF_PROGRESS") {
         BASE.store(map_file(&p, false) as usize, Ordering::SeqCst);
@@ -313,7 +340,11 @@ pub fn supervise(prop: &str, tier: &str, level: &str, args: &[String]) -> i32 {
             rep.violate(
                 kind,
                 format!("{kind} {what}"),
-                format!("the crate did not return ({kind}) on this case; {reason}"),
+                if what == "writer-setup" {
+                    format!("a plain set-up history (create / append / clear / reopen: {}) fails on this tree, the check cannot build its subject; {reason}", c.case["hist"])
+                } else {
+                    format!("the crate did not return ({kind}) on this case; {reason}")
+                },
                 c.case.clone(),
                 c.text.len(),
             );
